@@ -830,6 +830,93 @@ Proof.
 Qed.
 
 (* ------------------------------------------------------------------------------------------ *)
+(* histories of acquire_priv calls on one connection: every call is judged on its own *)
+Section CallsProofs.
+  Variable N factor : nat.
+  Variable stop : bool.
+  Variable parent : nat -> option nat.
+  Variable auth : nat -> bool.
+  Variable nbrs : nat -> list nat.
+  Variable matches : nat -> list nat.
+  Variable D : Type.
+  Variable dmode : D -> nat.
+
+  Local Notation calls' := (acquire_calls N factor stop parent auth nbrs matches D dmode).
+  Local Notation state' := (calls_state N factor stop parent auth nbrs matches D dmode).
+
+  Lemma acquire_calls_app : forall cs cs' belief d,
+    calls' (cs ++ cs') belief d =
+    calls' cs belief d ++ calls' cs' (fst (state' cs belief d)) (snd (state' cs belief d)).
+  Proof.
+    induction cs as [|[dl dst] r IH]; intros cs' belief d; [reflexivity|].
+    simpl. destruct (acquire N factor stop parent auth nbrs matches D dmode dl belief dst d) as [[[o b] d'] tr].
+    simpl. rewrite IH. reflexivity.
+  Qed.
+
+  Lemma acquire_calls_length : forall cs belief d, length (calls' cs belief d) = length cs.
+  Proof.
+    induction cs as [|[dl dst] r IH]; intros belief d; [reflexivity|].
+    simpl. destruct (acquire N factor stop parent auth nbrs matches D dmode dl belief dst d) as [[[o b] d'] tr].
+    simpl. rewrite IH. reflexivity.
+  Qed.
+
+  (* whatever the devices of the individual calls do, whatever earlier calls ended in: EVERY call of
+     the history ends, never out of fuel, within factor*|levels|+1 attempts of its own *)
+  Theorem calls_bounded : forall cs belief d,
+    Forall (fun r : outcome * option nat * D * list line =>
+              let '(o, _, _, tr) := r in
+              o <> OutOfFuel /\ length tr <= factor * N + 1 /\
+              (o = Reached \/ o = PrivilegeError \/ o = AuthFailed \/ o = Timeout \/ o = Crash))
+           (calls' cs belief d).
+  Proof.
+    induction cs as [|[dl dst] r IH]; intros belief d; [constructor|].
+    simpl. destruct (acquire N factor stop parent auth nbrs matches D dmode dl belief dst d) as [[[o b] d'] tr] eqn:E.
+    constructor; [|apply IH].
+    exact (nav_bounded N factor stop parent auth nbrs matches D dmode dl belief dst d o b d' tr E).
+  Qed.
+End CallsProofs.
+
+(* after ANY history of calls (any targets, any device behaviour during them, any outcomes — failed
+   ones included), a call during which the device cooperates, started with the device at the prompt
+   of a level matched by that level only, reaches its target by exactly the route from where the
+   device is: hypotheses of nav_reaches for the LAST call's device only *)
+Theorem nav_history_reaches :
+  forall (N factor : nat) (stop : bool) (parent : nat -> option nat) (auth : nat -> bool)
+         (nbrs matches : nat -> list nat) (D : Type) (dmode : D -> nat) (dline : D -> line -> D * reply)
+         (depth : nat -> nat) (root : nat),
+    (forall n p : nat, parent n = Some p -> depth n = S (depth p)) ->
+    (forall a b : nat, In b (nbrs a) <-> parent a = Some b \/ parent b = Some a) ->
+    (forall x : nat, valid parent depth root x -> depth x < N) ->
+    1 <= factor ->
+    (forall x : nat, valid parent depth root x -> x < N) ->
+    (forall m : nat, valid parent depth root m -> In m (matches m)) ->
+    (forall m c : nat, parent c = Some m -> matches m = [m]) ->
+    forall Inv : D -> Prop,
+    (forall d : D, Inv d -> exists d' : D, dline d LRet = (d', RPrompt) /\ dmode d' = dmode d /\ Inv d') ->
+    (forall (d : D) (p : nat), Inv d -> parent (dmode d) = Some p ->
+       exists d' : D, deescalate D dline (dmode d) d = (d', None) /\ dmode d' = p /\ Inv d') ->
+    (forall (d : D) (x : nat), Inv d -> parent x = Some (dmode d) ->
+       exists d' : D, escalate stop parent auth matches D dmode dline x d = (d', None) /\ dmode d' = x /\ Inv d') ->
+    forall (cs : list (call D)) (belief0 : option nat) (d0 : D) (src dst : nat),
+      let st := calls_state N factor stop parent auth nbrs matches D dmode cs belief0 d0 in
+      valid parent depth root src -> valid parent depth root dst -> dst < N ->
+      Inv (snd st) -> dmode (snd st) = src -> matches src = [src] ->
+      exists d' : D,
+        acquire_calls N factor stop parent auth nbrs matches D dmode (cs ++ [(dline, dst)]) belief0 d0 =
+          acquire_calls N factor stop parent auth nbrs matches D dmode cs belief0 d0
+          ++ [(Reached, Some dst, d', route parent depth (2 * N) src dst)] /\
+        dmode d' = dst /\ length (route parent depth (2 * N) src dst) + 1 <= N.
+Proof.
+  intros N factor stop parent auth nbrs matches D dmode dline depth root H1 H2 H3 H4 H5 H6 H7 Inv Hret Hde Hesc
+         cs belief0 d0 src dst st Hs Hd HdN HI Hm Hex.
+  destruct (nav_reaches_stale_belief N factor stop parent auth nbrs matches D dmode dline depth root
+              H1 H2 H3 H4 H5 H6 H7 Inv Hret Hde Hesc (fst st) src dst (snd st) Hs Hd HdN HI Hm Hex)
+    as (d' & E & Em & Hl).
+  exists d'. split; [|split; assumption].
+  rewrite acquire_calls_app. fold st. simpl. rewrite E. reflexivity.
+Qed.
+
+(* ------------------------------------------------------------------------------------------ *)
 (* the premises of nav_reaches are satisfiable: the IOS-XE shaped tree exec - privilege_exec -
    {configuration, tclsh}, an authenticated escalation to level 1, a device that just moves *)
 Module Example_Tree.
@@ -915,6 +1002,33 @@ Module Example_Tree.
     exists d', acquire 4 2 false parent auth nbrs matches nat dmode dline (Some 2) 2 1
                = (Reached, Some 2, d', [LEsc 2]) /\ dmode d' = 2.
   Proof. apply (stale_belief_premises_satisfiable false (Some 2) 1 2); lia. Qed.
+
+  (* the premises of nav_history_reaches are satisfiable: after ANY history (any devices during the
+     earlier calls) that leaves the device in one of the four levels, the cooperating device is navigated *)
+  Example history_premises_satisfiable : forall stop cs belief0 d0 dst,
+    let st := calls_state 4 2 stop parent auth nbrs matches nat dmode cs belief0 d0 in
+    snd st < 4 -> dst < 4 ->
+    exists d', acquire_calls 4 2 stop parent auth nbrs matches nat dmode (cs ++ [(dline, dst)]) belief0 d0
+               = acquire_calls 4 2 stop parent auth nbrs matches nat dmode cs belief0 d0
+                 ++ [(Reached, Some dst, d', route parent depth 8 (snd st) dst)] /\ dmode d' = dst.
+  Proof.
+    intros stop cs belief0 d0 dst st Hs Hd.
+    destruct (stale_belief_premises_satisfiable stop (fst st) (snd st) dst Hs Hd) as (d' & E & M).
+    exists d'. split; auto.
+    rewrite acquire_calls_app. fold st. simpl. rewrite E. reflexivity.
+  Qed.
+
+  (* a device that ignores every deescalate command *)
+  Definition dstuck (d : nat) (l : line) : nat * reply :=
+    match l with LEsc x => (x, RPrompt) | _ => (d, RPrompt) end.
+
+  (* not vacuous: from configuration (2) the device ignores "end": acquire_priv(privilege_exec) gives up
+     after 2*4+1 attempts; then the device cooperates: the very same call needs ONE attempt, and so
+     does the next one — no attempt of the failed call is charged to the later ones *)
+  Example history_after_a_refused_call :
+    acquire_calls 4 2 false parent auth nbrs matches nat dmode [(dstuck, 1); (dline, 1); (dline, 3)] (Some 2) 2
+    = [(PrivilegeError, None, 2, repeat (LDeesc 2) 9); (Reached, Some 1, 1, [LDeesc 2]); (Reached, Some 3, 3, [LEsc 3])].
+  Proof. vm_compute. reflexivity. Qed.
 End Example_Tree.
 
 (* ------------------------------------------------------------------------------------------ *)
